@@ -29,7 +29,7 @@ MANIFEST = dict(
          "Approve::handle_proposed_onchain, unchecked_sign_onchain_tx and (through the Validator trait) "
          "SimpleValidator::validate_onchain_tx on generated nodes with real channels on every run; the wallet / "
          "allowlist answers come from a reference BIP32 derivation in the harness, and the property itself is "
-         "recomputed in u128 from the description of each case.",
+         "recomputed in u128 from the description of each case.  C08_feerate_estimate_is_source: the feerate estimate of the model IS the source's (estimate_feerate_per_kw translated on every run by tools/gen_rustfn.py into Gen/TxUtilGen.v and proved equal to the model's definition for every u64 fee and non-zero weight, both build profiles).",
     design="§4 C08",
     note=lib.TB + "Side conditions of the rate conjunct: max_feerate_per_kw < u32::MAX (u32::MAX = no maximum once the "
          "estimate saturates) and dev flag disable_beneficial_balance_checks off; the fee velocity theorem needs only "
